@@ -5,22 +5,45 @@
     * `pypyr.cli.main` (the `try/except` ladder and its return values; the three calls it makes after
       argument parsing - `config.init()`, `set_root_logger(…)`, `pipelinerunner.run(…)` - each of which
       may raise, and where each sits relative to the `try`: §1b), `pypyr.__main__.main`
-      (`sys.exit(main())`), `pypyr.pipeline.Pipeline.run` (the `except Stop` clause).
-    * `pypyr.cli.get_parser` / `get_args`: argparse as configured there, on the argv grammar
-      described at `classify` below (exact long options, no abbreviations, no `--opt=value`).
+      (`sys.exit(main())`), `pypyr.pipeline.Pipeline.run` (the `except Stop` clause), and what the
+      interpreter does with an exception no handler of `main` catches (`SystemExit`, other
+      `BaseException`s): §1.
+    * `pypyr.cli.get_parser` / `get_args`: argparse (CPython 3.12 `ArgumentParser._parse_optional`,
+      `_get_option_tuples`, `_parse_known_args`, `_get_values`) as configured there - exact option
+      strings, unique-prefix abbreviations of long options (`allow_abbrev=True`), `--opt=value`,
+      `-h`/`--help`/`--version`, strings that start with `-` (negative-number matcher, the blank rule,
+      unknown options), `--`: §2.
     * the seven built-in context parsers `pypyr.parser.{keyvaluepairs,argskwargs,dict,list,string,
-      keys,json}.get_parsed_context`.
+      keys,json}.get_parsed_context`: §3.
     * `Pipeline._get_parse_input`, `Pipeline._prepare_context`, `pipelinerunner.run`
-      (`Context(args) if args else Context()`), without shortcuts.
+      (`Context(args) if args else Context()`): §4.
+    * `Pipeline.new_pipe_and_args`: the `config.shortcuts` rewrite of every argument of a run: §5.
 
-  argparse, `str.partition`, `str.join`, `json.loads` are CPython; what the model assumes of them
-  is validated by the correspondence harness on generated inputs.
+  argparse, `int()`, `str.partition`, `str.join`, `json.loads`, `pathlib.Path` are CPython; what the
+  model assumes of them is validated by the correspondence harness on generated inputs.
+
+  OUT OF DOMAIN (the driver rejects, the model says `outside`):
+    * a string of argv that starts with `-`, matches no option and contains a non-ASCII character
+      (argparse's negative-number matcher uses `\d`, which accepts every Unicode decimal digit);
+    * an explicit option argument that is exactly `--` (`--success=--`: CPython 3.12's `_get_values`
+      removes it and stores the empty *list*);
+    * a `--log` value with a non-ASCII character, a control character other than `\t \n \v \f \r`, or
+      longer than 4000 characters (`int()` accepts Unicode digits/blanks; `sys.set_int_max_str_digits`);
+    * `SystemExit` codes that are ints outside `[-2^63, 2^63)`.
 -/
 import PypyrModel.Val
 
 namespace Pypyr.Cli
 
 /-! ## 1. Exit status -/
+
+/-- The argument of `SystemExit` as the interpreter's exit handling distinguishes it
+    (`handle_system_exit`). -/
+inductive ExitCode where
+  | absent                 -- `sys.exit()` / `sys.exit(None)`
+  | int (n : Int)          -- an `int` (`bool` included): the status is `n & 0xFF`
+  | other (text : String)  -- any other object: `str(obj)` is written to stderr, the status is 1
+  deriving Repr, DecidableEq, Inhabited
 
 /-- What escapes `Pipeline.load_and_run_pipeline` (or `config.init` / logger set-up). -/
 inductive Raised where
@@ -30,7 +53,24 @@ inductive Raised where
   | stopStepGroup
   | keyboardInterrupt
   | error (ty : String) (msg : String)     -- any other `Exception`: `type(e).__name__`, `str(e)`
+  | systemExit (code : ExitCode)           -- `SystemExit(code)`: `sys.exit(…)` inside a step
+  | baseOther (ty : String) (msg : String) -- a `BaseException` that is neither an `Exception`, nor
+                                           -- `KeyboardInterrupt`, nor `SystemExit` (`GeneratorExit`, own subclass)
   deriving Repr, DecidableEq, Inhabited
+
+/-- A `BaseException` outside `Exception` and other than `KeyboardInterrupt`. Nothing in pypyr
+    catches these: the step decorators (`swallow`, `retry`), the failure handler of a step group,
+    `pype`, `Pipeline._run_pipeline`, `Pipeline.run` and `cli.main` all say `except Exception`
+    (or `except Stop`), so such an exception leaves the run at the point where it is raised -
+    no later step, no `on_failure`, no `on_success`. -/
+def Raised.isBase : Raised → Bool
+  | .systemExit _ | .baseOther _ _ => true
+  | _ => false
+
+/-- An `Exception` (the Stop family derives from `Exception`). -/
+def Raised.isException : Raised → Bool
+  | .stop | .stopPipeline | .stopStepGroup | .error _ _ => true
+  | _ => false
 
 /-- `Pipeline.run`: `try: self.load_and_run_pipeline(context) except Stop: …` —
     `StopPipeline` and `StopStepGroup` are subclasses of `Stop`. -/
@@ -44,23 +84,87 @@ structure MainResult where
   stderr : String          -- written by `main` itself, before any traceback
   deriving Repr, DecidableEq, Inhabited
 
-/-- The `try/except` ladder of `pypyr.cli.main`. -/
-def cliMain : Raised → MainResult
-  | .keyboardInterrupt => ⟨some (128 + 2), "\n", ""⟩
-  | .error ty msg => ⟨some 255, "", "\n" ++ "\x1b[91m" ++ ty ++ ": " ++ msg ++ "\x1b[0;0m" ++ "\n"⟩
+/-- The `try/except` ladder of `pypyr.cli.main` applied to what its `try` body raised.
+    `none`: no handler matches (`except KeyboardInterrupt` / `except Exception`) - the exception
+    propagates out of `main`. -/
+def cliMain : Raised → Option MainResult
+  | .keyboardInterrupt => some ⟨some (128 + 2), "\n", ""⟩
+  | .error ty msg => some ⟨some 255, "", "\n" ++ "\x1b[91m" ++ ty ++ ": " ++ msg ++ "\x1b[0;0m" ++ "\n"⟩
   -- a `Stop` cannot reach `main` through `Pipeline.run`; raised from elsewhere it is an `Exception`
-  | .stop => ⟨some 255, "", "\n" ++ "\x1b[91m" ++ "Stop" ++ ": " ++ "" ++ "\x1b[0;0m" ++ "\n"⟩
-  | .stopPipeline => ⟨some 255, "", "\n" ++ "\x1b[91m" ++ "StopPipeline" ++ ": " ++ "" ++ "\x1b[0;0m" ++ "\n"⟩
-  | .stopStepGroup => ⟨some 255, "", "\n" ++ "\x1b[91m" ++ "StopStepGroup" ++ ": " ++ "" ++ "\x1b[0;0m" ++ "\n"⟩
-  | .nothing => ⟨none, "", ""⟩
+  | .stop => some ⟨some 255, "", "\n" ++ "\x1b[91m" ++ "Stop" ++ ": " ++ "" ++ "\x1b[0;0m" ++ "\n"⟩
+  | .stopPipeline => some ⟨some 255, "", "\n" ++ "\x1b[91m" ++ "StopPipeline" ++ ": " ++ "" ++ "\x1b[0;0m" ++ "\n"⟩
+  | .stopStepGroup => some ⟨some 255, "", "\n" ++ "\x1b[91m" ++ "StopStepGroup" ++ ": " ++ "" ++ "\x1b[0;0m" ++ "\n"⟩
+  | .nothing => some ⟨none, "", ""⟩
+  | .systemExit _ => none
+  | .baseOther _ _ => none
 
 /-- `sys.exit(x)`: `None` is status 0. -/
 def sysExit : Option Nat → Nat
   | none => 0
   | some n => n
 
+/-- Status the interpreter exits with for an unhandled `SystemExit(code)`: 0 for `None`,
+    `n & 0xFF` for an int that fits a C `long`, 1 for anything else. -/
+def ExitCode.status : ExitCode → Nat
+  | .absent => 0
+  | .int n => (n % 256).toNat
+  | .other _ => 1
+
+/-- What the interpreter writes to stderr for an unhandled `SystemExit(code)`. -/
+def ExitCode.stderr : ExitCode → String
+  | .other t => t ++ "\n"
+  | _ => ""
+
+/-- How a call of `main` ends. -/
+inductive Outcome where
+  | returned (m : MainResult)   -- `sys.exit(main())` then gives `sysExit m.ret`
+  | escaped (r : Raised)        -- raised out of `main` (and out of `__main__`): the interpreter deals with it
+  deriving Repr, DecidableEq, Inhabited
+
+/-- The `try` statement of `main` as a whole: a handler returns, or the exception goes on. -/
+def tryMain (r : Raised) : Outcome :=
+  match cliMain r with
+  | some m => .returned m
+  | none => .escaped r
+
+/-- Exit status of the process. `none`: not a status - an unhandled `KeyboardInterrupt` makes the
+    interpreter kill itself with SIGINT (and `.escaped .nothing` does not occur). An unhandled
+    `SystemExit(code)` is the status `code` asks for; any other unhandled exception is status 1. -/
+def Outcome.status : Outcome → Option Nat
+  | .returned m => some (sysExit m.ret)
+  | .escaped (.systemExit c) => some c.status
+  | .escaped .keyboardInterrupt => none
+  | .escaped .nothing => none
+  | .escaped _ => some 1
+
+/-- What `main` or the interpreter's exit handling writes to stderr, any traceback aside. -/
+def Outcome.stderr : Outcome → String
+  | .returned m => m.stderr
+  | .escaped (.systemExit c) => c.stderr
+  | .escaped _ => ""
+
+/-- Does the *interpreter* print `Traceback (most recent call last): …` (an exception other than
+    `SystemExit` left `__main__`)? The last line of that traceback (`module.QualName: message`) is
+    not modelled. -/
+def Outcome.interpreterTraceback : Outcome → Bool
+  | .returned _ => false
+  | .escaped (.systemExit _) => false
+  | .escaped .nothing => false
+  | .escaped _ => true
+
+/-- `if parsed_args.log_level: if parsed_args.log_level < 10: traceback.print_exc()` in the
+    `except Exception` handler of `main`: a traceback follows the `type: message` line exactly for a
+    non-zero log level below 10 (negative levels included; 0 and "not given" do not). -/
+def showsTraceback (log : Option Int) : Bool :=
+  match log with
+  | none => false
+  | some n => n != 0 && n < 10
+
+/-- Does `main` itself print a traceback for what its `try` body raised? -/
+def mainTraceback (log : Option Int) (r : Raised) : Bool := r.isException && showsTraceback log
+
 /-- Exit status of the `pypyr` process given what escaped the pipeline run. -/
-def exitStatus (r : Raised) : Nat := sysExit (cliMain (pipelineRun r)).ret
+def exitStatus (r : Raised) : Option Nat := (tryMain (pipelineRun r)).status
 
 /-! ## 1b. The phases of `main`
 
@@ -124,18 +228,11 @@ structure MainShape where
   inTry     : List Phase
   deriving Repr, DecidableEq, Inhabited
 
-/-- How a call of `main` ends. -/
-inductive Outcome where
-  | returned (m : MainResult)   -- `sys.exit(main())` then gives `sysExit m.ret`
-  | escaped (r : Raised)        -- raised out of `main`: the interpreter prints a traceback; the status is
-                                -- the interpreter's (1; death by SIGINT for `KeyboardInterrupt`), not pypyr's
-  deriving Repr, DecidableEq, Inhabited
-
 /-- `main` for a given placement of the calls: anything raised before the `try` leaves `main`;
-    what the `try` body raises goes down the handler ladder `cliMain`. -/
+    what the `try` body raises goes down the handler ladder `cliMain` (`tryMain`). -/
 def mainOf (s : MainShape) (f : Faults) : Outcome :=
   match seqRaises f s.beforeTry with
-  | .nothing => .returned (cliMain (seqRaises f s.inTry))
+  | .nothing => tryMain (seqRaises f s.inTry)
   | r => .escaped r
 
 /-- `pypyr.cli.main` as it is: all three calls inside the `try`. -/
@@ -153,6 +250,12 @@ def mainStderrWrites : List (List (Bool × String)) :=
   [[(false, "\n")],
    [(false, "\x1b[91m"), (true, "type(e).__name__"), (false, ": "), (true, "str(e)"), (false, "\x1b[0;0m")],
    [(false, "\n")]]
+
+/-- What follows those writes in the `except Exception` handler, as the extractor renders it
+    ("<nesting depth>:<source>" per statement): the guard of the traceback (`showsTraceback`
+    transliterates it: `log_level` truthy - not `None`, not 0 - and `< 10`), the guarded call, the return. -/
+def mainTracebackGuard : List String :=
+  ["0:if parsed_args.log_level", "1:if parsed_args.log_level < 10", "2:traceback.print_exc()", "0:return 255"]
 
 /-- Evaluate those pieces for an exception of type name `ty` and `str(e) = msg`; a replacement
     field the model does not know renders as `none`. -/
@@ -173,27 +276,91 @@ def renderWrites (ty msg : String) : List (List (Bool × String)) → Option Str
 /-- `pypyr.cli.main` after argument parsing. -/
 def mainPhases (f : Faults) : Outcome := mainOf mainShape f
 
-/-- Exit status of the process; `none`: not a status pypyr chose (uncaught exception). -/
-def Outcome.status : Outcome → Option Nat
-  | .returned m => some (sysExit m.ret)
-  | .escaped _ => none
-
 /-- A fault in one phase only. -/
 def faultAt (p : Phase) (r : Raised) : Faults := fun q => if q = p then r else .nothing
 
-/-! ## 2. argv -/
+/-! ## 2. argv
+
+`get_parser()` registers, in this order, the option strings of `optionTable` (argparse adds
+`-h`, `--help` first). `Props/C18.lean: option_table_agrees` ties the table (option strings, dest,
+nargs, type, action of every `add_argument`, and `allow_abbrev`) to `Generated/CliOptions.lean`,
+extracted from the source on every run. -/
 
 inductive OptName where
-  | groups | success | failure | dir | log | logpath
+  | groups | success | failure | dir | log | logpath | help | version
   deriving Repr, DecidableEq, Inhabited
+
+/-- `parser._option_string_actions`, insertion order, as characters. -/
+def optionTableChars : List (List Char × OptName) :=
+  [(['-', 'h'], .help),
+   (['-', '-', 'h', 'e', 'l', 'p'], .help),
+   (['-', '-', 'g', 'r', 'o', 'u', 'p', 's'], .groups),
+   (['-', '-', 's', 'u', 'c', 'c', 'e', 's', 's'], .success),
+   (['-', '-', 'f', 'a', 'i', 'l', 'u', 'r', 'e'], .failure),
+   (['-', '-', 'd', 'i', 'r'], .dir),
+   (['-', '-', 'l', 'o', 'g'], .log),
+   (['-', '-', 'l', 'o', 'g', 'l', 'e', 'v', 'e', 'l'], .log),
+   (['-', '-', 'l', 'o', 'g', 'p', 'a', 't', 'h'], .logpath),
+   (['-', '-', 'v', 'e', 'r', 's', 'i', 'o', 'n'], .version)]
+
+/-- The same with the option strings as strings. -/
+def optionTable : List (String × OptName) := optionTableChars.map fun p => (String.ofList p.1, p.2)
+
+/-- One row of the parser definition: what `add_argument` was given (source text of each keyword;
+    `"-"` when absent). Positionals have no option strings. -/
+structure ArgRow where
+  optionStrings : List String
+  dest    : String
+  nargs   : String
+  type    : String
+  default : String
+  action  : String
+  other   : List String := []     -- any further keyword (`const`, `choices`, `required`, …): none
+  deriving Repr, DecidableEq, Inhabited
+
+/-- A row as the extractor writes it (a plain tuple). -/
+def ArgRow.ofTuple (t : List String × String × String × String × String × String × List String) : ArgRow :=
+  ⟨t.1, t.2.1, t.2.2.1, t.2.2.2.1, t.2.2.2.2.1, t.2.2.2.2.2.1, t.2.2.2.2.2.2⟩
+
+/-- The parser definition the model assumes (`get_parser`, source order). -/
+def parserRows : List ArgRow :=
+  [⟨[], "pipeline_name", "-", "-", "-", "-", []⟩,
+   ⟨[], "context_args", "'*'", "-", "None", "-", []⟩,
+   ⟨["--groups"], "groups", "'*'", "-", "None", "-", []⟩,
+   ⟨["--success"], "success_group", "-", "-", "None", "-", []⟩,
+   ⟨["--failure"], "failure_group", "-", "-", "None", "-", []⟩,
+   ⟨["--dir"], "py_dir", "-", "-", "config.cwd", "-", []⟩,
+   ⟨["--log", "--loglevel"], "log_level", "-", "int", "None", "-", []⟩,
+   ⟨["--logpath"], "log_path", "-", "-", "-", "-", []⟩,
+   ⟨["--version"], "-", "-", "-", "-", "'version'", []⟩]
+
+/-- The option a row of the parser definition stands for in the model (by `dest` / action). -/
+def ArgRow.optName (r : ArgRow) : Option OptName :=
+  if r.action = "'version'" then some .version
+  else if r.dest = "groups" then some .groups
+  else if r.dest = "success_group" then some .success
+  else if r.dest = "failure_group" then some .failure
+  else if r.dest = "py_dir" then some .dir
+  else if r.dest = "log_level" then some .log
+  else if r.dest = "log_path" then some .logpath
+  else none
+
+/-- The option-string table a list of rows gives rise to: `-h`, `--help` first (`add_help`), then
+    every option string of every row in order. -/
+def tableOfRows (rows : List ArgRow) : List (String × OptName) :=
+  [("-h", .help), ("--help", .help)] ++
+    (rows.map fun r => match r.optName with
+      | some o => r.optionStrings.map fun s => (s, o)
+      | none => []).flatten
 
 /-- How argparse classifies one argv string *before* a `--` (`ArgumentParser._parse_optional`). -/
 inductive Cls where
-  | pos                    -- 'A'
-  | opt (o : OptName)      -- 'O', one of this parser's exact option strings
-  | dd                     -- the `--` separator
-  | outside                -- anything else that starts with '-': abbreviation, `--opt=value`,
-                           -- `--version`, `-h`, negative numbers, unknown options: not modelled
+  | pos                                          -- 'A'
+  | opt (o : OptName) (explicit : Option String) -- 'O': an option of this parser, with the `=value` part if any
+  | unknown                                      -- 'O' without action: the string goes to the "extras"
+  | ambiguous                                    -- an abbreviation of several option strings: `error()`
+  | dd                                           -- the `--` separator
+  | outside                                      -- not modelled (see the file header)
   deriving Repr, DecidableEq, Inhabited
 
 def startsWithDash (s : String) : Bool :=
@@ -201,38 +368,130 @@ def startsWithDash (s : String) : Bool :=
   | '-' :: _ => true
   | _ => false
 
-def classify (s : String) : Cls :=
-  if s = "--" then .dd
-  else if s = "--groups" then .opt .groups
-  else if s = "--success" then .opt .success
-  else if s = "--failure" then .opt .failure
-  else if s = "--dir" then .opt .dir
-  else if s = "--log" then .opt .log
-  else if s = "--loglevel" then .opt .log
-  else if s = "--logpath" then .opt .logpath
-  else if s = "-" then .pos
-  else if startsWithDash s then .outside
-  else .pos
+/-- `option_string in self._option_string_actions`. -/
+def lookupOpt (cs : List Char) : Option OptName :=
+  (optionTableChars.find? fun p => p.1 = cs).map (·.2)
+
+/-- `str.startswith`. -/
+def isPrefixChars : List Char → List Char → Bool
+  | [], _ => true
+  | _ :: _, [] => false
+  | a :: as, b :: bs => a = b && isPrefixChars as bs
+
+/-- `s.split('=', 1)` for a string that may have no `=`: the text before the first `=` and, if there
+    is one, the text after it. -/
+def splitEq : List Char → List Char × Option (List Char)
+  | [] => ([], none)
+  | c :: cs =>
+    if c = '=' then ([], some cs)
+    else let r := splitEq cs; (c :: r.1, r.2)
+
+/-- `_get_option_tuples` for a string that starts with two dashes (`allow_abbrev=True`): every
+    registered option string that starts with the text before the first `=`. -/
+def longTuples (cs : List Char) : List (List Char × OptName × Option (List Char)) :=
+  let pe := splitEq cs
+  (optionTableChars.filter fun p => isPrefixChars pe.1 p.1).map fun p => (p.1, p.2, pe.2)
+
+/-- `_get_option_tuples` for a string that starts with one dash: the two-character option string
+    with the rest as its explicit argument, or an option string that starts with the whole string. -/
+def shortTuples (cs : List Char) : List (List Char × OptName × Option (List Char)) :=
+  optionTableChars.filterMap fun p =>
+    if p.1 = cs.take 2 then some (p.1, p.2, some (cs.drop 2))
+    else if isPrefixChars cs p.1 then some (p.1, p.2, none)
+    else none
+
+def allDigits (cs : List Char) : Bool := cs.all Char.isDigit
+
+/-- `_negative_number_matcher = re.compile(r'^-\d+$|^-\d*\.\d+$')` on ASCII text (`$` also matches
+    before a final newline). -/
+def negNumber : List Char → Bool
+  | '-' :: r =>
+    let r := if r.getLast? = some '\n' then r.dropLast else r
+    (!r.isEmpty && allDigits r) ||
+      (match r.dropWhile (· ≠ '.') with
+       | '.' :: d => allDigits (r.takeWhile (· ≠ '.')) && !d.isEmpty && allDigits d
+       | _ => false)
+  | _ => false
+
+def hasNonAscii (cs : List Char) : Bool := cs.any fun c => c.toNat ≥ 128
+
+/-- An option found with its explicit argument. The single-dash chain of `consume_optional`
+    (`-hh`, `-h=h`: each further character must again be a no-argument short option, i.e. `h`)
+    is resolved here: a non-empty explicit argument of `-h` made of `h`s only is more `-h`s. -/
+def optCls (flag : List Char) (o : OptName) (e : Option (List Char)) : Cls :=
+  match e with
+  | none => .opt o none
+  | some x =>
+    if flag = ['-', 'h'] && !x.isEmpty && x.all (· = 'h') then .opt o none
+    else .opt o (some (String.ofList x))
+
+/-- `_parse_optional` (called for every string before the first `--`). -/
+def classifyChars (cs : List Char) : Cls :=
+  match cs with
+  | [] => .pos
+  | c :: rest =>
+    if c ≠ '-' then .pos
+    else if cs = ['-', '-'] then .dd
+    else match lookupOpt cs with
+      | some o => .opt o none
+      | none =>
+        if rest.isEmpty then .pos
+        else
+          let pe := splitEq cs
+          match (if pe.2.isSome then lookupOpt pe.1 else none) with
+          | some o => optCls pe.1 o pe.2
+          | none =>
+            match (if rest.head? = some '-' then longTuples cs else shortTuples cs) with
+            | [t] => optCls t.1 t.2.1 t.2.2
+            | _ :: _ :: _ => .ambiguous
+            | [] =>
+              if hasNonAscii cs then .outside
+              else if negNumber cs then .pos          -- `_has_negative_number_optionals` is empty
+              else if cs.contains ' ' then .pos
+              else .unknown
+
+def classify (s : String) : Cls := classifyChars s.toList
 
 inductive Tok where
   | pos (s : String)
-  | opt (o : OptName)
+  | opt (o : OptName) (explicit : Option String)
+  | unknown
   | dd
   deriving Repr, DecidableEq, Inhabited
 
-/-- The pattern pass of `_parse_known_args`: after the first `--` every string is an argument.
-    `none`: some string is outside the modelled grammar. -/
-def tokenize : Bool → List String → Option (List Tok)
-  | _, [] => some []
+/-- Why the pattern pass stops. -/
+inductive TokStop where
+  | ambiguous     -- `error()`: status 2, before any action is taken
+  | outside
+  deriving Repr, DecidableEq, Inhabited
+
+inductive TokR where
+  | stop (s : TokStop)
+  | toks (ts : List Tok)
+  deriving Repr, DecidableEq, Inhabited
+
+def TokR.map (f : List Tok → List Tok) : TokR → TokR
+  | .stop s => .stop s
+  | .toks ts => .toks (f ts)
+
+/-- The pattern pass of `_parse_known_args`, left to right: after the first `--` every string is an
+    argument; the first ambiguous abbreviation ends the parse with `error()`. -/
+def tokenize : Bool → List String → TokR
+  | _, [] => .toks []
   | true, s :: rest => (tokenize true rest).map (Tok.pos s :: ·)
   | false, s :: rest =>
     match classify s with
     | .pos => (tokenize false rest).map (Tok.pos s :: ·)
-    | .opt o => (tokenize false rest).map (Tok.opt o :: ·)
+    | .opt o e => (tokenize false rest).map (Tok.opt o e :: ·)
+    | .unknown => (tokenize false rest).map (Tok.unknown :: ·)
     | .dd => (tokenize true rest).map (Tok.dd :: ·)
-    | .outside => none
+    | .ambiguous => .stop .ambiguous
+    | .outside => .stop .outside
 
-/-- The namespace `get_args` returns (`py_dir = none` stands for the default `config.cwd`). -/
+/-- The namespace `get_args` returns. `dir = none` stands for the default of `--dir`:
+    `config.cwd`, a property that returns the module constant `pypyr.config.CWD = Path.cwd()` taken
+    when `pypyr.config` was imported - the same `Path` object for every parser built afterwards,
+    whatever the working directory is by then. -/
 structure Args where
   name    : String := ""
   ctx     : List String := []
@@ -240,7 +499,7 @@ structure Args where
   success : Option String := none
   failure : Option String := none
   dir     : Option String := none
-  log     : Option Nat := none
+  log     : Option Int := none
   logpath : Option String := none
   deriving Repr, DecidableEq, Inhabited
 
@@ -256,110 +515,198 @@ inductive Mode where
 structure PSt where
   mode    : Mode := .idle
   hasName : Bool := false
+  extras  : Bool := false    -- some string went to the "extras": `parse_args` will call `error()` at the end
   args    : Args := {}
   deriving Repr, DecidableEq, Inhabited
 
-/-- `type=int` of `--log`, on plain decimal digit strings (other spellings `int()` accepts are
-    outside the modelled grammar and rejected by the driver). -/
-def parseNat? (s : String) : Option Nat :=
-  let cs := s.toList
-  if cs.isEmpty || !cs.all Char.isDigit then none
-  else some (cs.foldl (fun n c => n * 10 + (c.toNat - '0'.toNat)) 0)
+inductive IntParse where
+  | outside
+  | invalid               -- `ValueError`
+  | ok (n : Int)
+  deriving Repr, DecidableEq, Inhabited
 
-def setOpt (a : Args) (o : OptName) (s : String) : Option Args :=
+/-- Blanks `int()` strips (ASCII). -/
+def pyWs (c : Char) : Bool :=
+  c = ' ' || c = '\t' || c = '\n' || c = '\r' || c = '\x0b' || c = '\x0c'
+
+/-- Decimal digits with single underscores *between* digits (`prevUs`: the previous character was
+    an underscore or there was none yet). -/
+def digitsUs : List Char → Bool → Nat → Option Nat
+  | [], prevUs, acc => if prevUs then none else some acc
+  | c :: cs, prevUs, acc =>
+    if c = '_' then (if prevUs then none else digitsUs cs true acc)
+    else if c.isDigit then digitsUs cs false (acc * 10 + (c.toNat - '0'.toNat))
+    else none
+
+/-- `type=int` of `--log`: `int(s)` for ASCII text - blanks stripped at both ends, an optional sign
+    directly before the digits, digits with single underscores between them (`'+5'`, `' 5 '`,
+    `'5_0'`, `'-5'`, `'007'` are all ints). -/
+def parseInt (s : String) : IntParse :=
+  let cs := s.toList
+  if cs.any (fun c => c.toNat ≥ 128 || (c.toNat < 32 && !pyWs c)) || cs.length > 4000 then .outside
+  else
+    let t := ((cs.dropWhile pyWs).reverse.dropWhile pyWs).reverse
+    let sd : Bool × List Char := match t with
+      | '+' :: r => (false, r)
+      | '-' :: r => (true, r)
+      | r => (false, r)
+    match digitsUs sd.2 true 0 with
+    | none => .invalid
+    | some n => .ok (if sd.1 then -(n : Int) else (n : Int))
+
+/-- Why the consumption of argv stops early. -/
+inductive Stop where
+  | usage      -- argparse `error()`: SystemExit(2)
+  | exit0      -- `-h` / `--help` / `--version`: the action prints and calls `parser.exit()` - SystemExit(0)
+  | outside
+  deriving Repr, DecidableEq, Inhabited
+
+inductive StepR where
+  | stop (s : Stop)
+  | next (st : PSt)
+  deriving Repr, DecidableEq, Inhabited
+
+/-- `take_action` of a one-argument option (`explicit`: the value came joined with `=`). -/
+def setOpt (a : Args) (o : OptName) (s : String) : Except Stop Args :=
   match o with
-  | .success => some { a with success := some s }
-  | .failure => some { a with failure := some s }
-  | .dir => some { a with dir := some s }
-  | .logpath => some { a with logpath := some s }
-  | .log => (parseNat? s).map fun n => { a with log := some n }
-  | .groups => none
+  | .success => .ok { a with success := some s }
+  | .failure => .ok { a with failure := some s }
+  | .dir => .ok { a with dir := some s }
+  | .logpath => .ok { a with logpath := some s }
+  | .log => match parseInt s with
+    | .ok n => .ok { a with log := some n }
+    | .invalid => .error .usage              -- "invalid int value"
+    | .outside => .error .outside
+  | .groups | .help | .version => .error .outside     -- not one-argument options: not reached
+
+/-- An option string at a point where argparse is between actions (`consume_optional`). -/
+def stepOpt (st : PSt) (o : OptName) (e : Option String) : StepR :=
+  match o, e with
+  | .help, none => .stop .exit0
+  | .version, none => .stop .exit0
+  | .help, some _ => .stop .usage            -- "ignored explicit argument"
+  | .version, some _ => .stop .usage
+  | .groups, none => .next { st with mode := .inGroups, args := { st.args with groups := some [] } }
+  | .groups, some x =>
+    if x = "--" then .stop .outside
+    else .next { st with mode := .idle, args := { st.args with groups := some [x] } }
+  | o, none => .next { st with mode := .needArg o }
+  | o, some x =>
+    if x = "--" then .stop .outside
+    else match setOpt st.args o x with
+      | .ok a => .next { st with mode := .idle, args := a }
+      | .error s => .stop s
 
 /-- What happens at an option string or at a positional when no option is collecting. -/
-def stepIdle (st : PSt) (t : Tok) : Option PSt :=
+def stepIdle (st : PSt) (t : Tok) : StepR :=
   match t with
-  | .opt .groups => some { st with mode := .inGroups, args := { st.args with groups := some [] } }
-  | .opt o => some { st with mode := .needArg o }
-  | .pos s => if st.hasName then none   -- both positionals are consumed together: this is an "extra"
-              else some { st with mode := .afterName, hasName := true, args := { st.args with name := s } }
-  | .dd => if st.hasName then none else some { st with mode := .afterDD }
+  | .opt o e => stepOpt st o e
+  | .unknown => .next { st with mode := .idle, extras := true }
+  | .pos s =>
+    if st.hasName then .next { st with mode := .idle, extras := true }   -- both positionals are consumed together
+    else .next { st with mode := .afterName, hasName := true, args := { st.args with name := s } }
+  | .dd => if st.hasName then .next { st with mode := .idle, extras := true } else .next { st with mode := .afterDD }
 
-/-- One argv string. `none` = argparse calls `error()` (exit status 2). -/
-def step (st : PSt) (t : Tok) : Option PSt :=
+/-- One argv string. -/
+def step (st : PSt) (t : Tok) : StepR :=
   match st.mode, t with
   | .idle, t => stepIdle st t
-  | .needArg o, .pos s => (setOpt st.args o s).map fun a => { st with mode := .idle, args := a }
-  | .needArg _, _ => none                                   -- "expected one argument"
+  | .needArg o, .pos s =>
+    (match setOpt st.args o s with
+     | .ok a => .next { st with mode := .idle, args := a }
+     | .error e => .stop e)
+  | .needArg _, _ => .stop .usage                                   -- "expected one argument"
   | .inGroups, .pos s =>
-    some { st with args := { st.args with groups := some ((st.args.groups.getD []) ++ [s]) } }
+    .next { st with args := { st.args with groups := some ((st.args.groups.getD []) ++ [s]) } }
   | .inGroups, t => stepIdle st t
-  | .afterDD, .pos s => some { st with mode := .afterName, hasName := true, args := { st.args with name := s } }
-  | .afterDD, _ => none
-  | .afterName, .dd => some { st with mode := .inCtx }
-  | .afterName, .pos s => some { st with mode := .inCtx, args := { st.args with ctx := st.args.ctx ++ [s] } }
+  | .afterDD, .pos s => .next { st with mode := .afterName, hasName := true, args := { st.args with name := s } }
+  | .afterDD, _ => .stop .usage
+  | .afterName, .dd => .next { st with mode := .inCtx }
+  | .afterName, .pos s => .next { st with mode := .inCtx, args := { st.args with ctx := st.args.ctx ++ [s] } }
   | .afterName, t => stepIdle st t
-  | .inCtx, .pos s => some { st with args := { st.args with ctx := st.args.ctx ++ [s] } }
-  | .inCtx, .dd => some { st with args := { st.args with ctx := st.args.ctx ++ ["--"] } }
+  | .inCtx, .pos s => .next { st with args := { st.args with ctx := st.args.ctx ++ [s] } }
+  | .inCtx, .dd => .next { st with args := { st.args with ctx := st.args.ctx ++ ["--"] } }
   | .inCtx, t => stepIdle st t
 
-def run : PSt → List Tok → Option PSt
-  | st, [] => some st
+def run : PSt → List Tok → StepR
+  | st, [] => .next st
   | st, t :: ts => match step st t with
-    | none => none
-    | some st' => run st' ts
+    | .stop s => .stop s
+    | .next st' => run st' ts
 
-/-- End of argv: a pending one-argument option or a missing pipeline name is an error;
+/-- End of argv: a pending one-argument option, a missing pipeline name or any "extra" is an error;
     `_get_values` removes the first `'--'` from the strings matched by `context_args`. -/
 def finish (st : PSt) : Option Args :=
   match st.mode with
   | .needArg _ => none
   | .afterDD => none
-  | _ => if st.hasName then some { st.args with ctx := st.args.ctx.erase "--" } else none
+  | _ => if st.hasName && !st.extras then some { st.args with ctx := st.args.ctx.erase "--" } else none
 
 inductive ArgvResult where
-  | outside                 -- not in the modelled grammar
+  | outside                 -- not in the modelled domain
   | usage                   -- argparse `error()`: SystemExit(2)
+  | exit0                   -- help / version printed: SystemExit(0); `main` does nothing else
   | ok (a : Args)
   deriving Repr, DecidableEq, Inhabited
 
 /-- `pypyr.cli.get_args`. -/
 def parseArgv (argv : List String) : ArgvResult :=
   match tokenize false argv with
-  | none => .outside
-  | some toks =>
+  | .stop .outside => .outside
+  | .stop .ambiguous => .usage
+  | .toks toks =>
     match run {} toks with
-    | none => .usage
-    | some st => match finish st with
+    | .stop .usage => .usage
+    | .stop .exit0 => .exit0
+    | .stop .outside => .outside
+    | .next st => match finish st with
       | none => .usage
       | some a => .ok a
 
-/-- An option as written on a command line. -/
+/-- An option and its value(s): what it means. -/
 inductive Opt where
   | groups (gs : List String)
   | success (s : String)
   | failure (s : String)
   | dir (s : String)
-  | log (s : String)        -- as written: a decimal digit string
+  | log (s : String)        -- as written: text `int()` accepts
   | logpath (s : String)
   deriving Repr, DecidableEq, Inhabited
 
-def Opt.render : Opt → List String
-  | .groups gs => "--groups" :: gs
-  | .success s => ["--success", s]
-  | .failure s => ["--failure", s]
-  | .dir s => ["--dir", s]
-  | .log s => ["--log", s]
-  | .logpath s => ["--logpath", s]
+def Opt.name : Opt → OptName
+  | .groups _ => .groups
+  | .success _ => .success
+  | .failure _ => .failure
+  | .dir _ => .dir
+  | .log _ => .log
+  | .logpath _ => .logpath
+
+def Opt.values : Opt → List String
+  | .groups gs => gs
+  | .success s | .failure s | .dir s | .log s | .logpath s => [s]
+
+/-- An option as written on a command line: the option string used (exact, or any abbreviation
+    argparse accepts) and whether the value is joined to it with `=`. -/
+structure WOpt where
+  opt    : Opt
+  flag   : String
+  joined : Bool := false
+  deriving Repr, DecidableEq, Inhabited
+
+def WOpt.render (w : WOpt) : List String :=
+  match w.joined, w.opt.values with
+  | true, [v] => [w.flag ++ "=" ++ v]
+  | _, vs => w.flag :: vs
 
 def Opt.apply (a : Args) : Opt → Args
   | .groups gs => { a with groups := some gs }
   | .success s => { a with success := some s }
   | .failure s => { a with failure := some s }
   | .dir s => { a with dir := some s }
-  | .log s => { a with log := parseNat? s }
+  | .log s => { a with log := match parseInt s with | .ok n => some n | _ => a.log }
   | .logpath s => { a with logpath := some s }
 
-def renderOpts (os : List Opt) : List String := (os.map Opt.render).flatten
+def renderOpts (ws : List WOpt) : List String := (ws.map WOpt.render).flatten
 
 def applyOpts (a : Args) (os : List Opt) : Args := os.foldl Opt.apply a
 
@@ -379,21 +726,25 @@ def runCallOf (a : Args) : RunCall :=
   { pipelineName := a.name, argsIn := a.ctx, parseArgs := some true, groups := a.groups,
     successGroup := a.success, failureGroup := a.failure, pyDir := a.dir }
 
-/-- Exit status of the process for an argv and a given behaviour of the pipeline run. -/
-def cliProcess (argv : List String) (runs : RunCall → Raised) : Option Nat :=
+/-- How the `pypyr` process ends for an argv and a given behaviour of the pipeline run, and the
+    call `main` made (`none`: the runner was not called).
+    Outer `none`: argv outside the modelled domain. -/
+def cliProcess (argv : List String) (runs : RunCall → Raised) : Option (Option Nat × Option RunCall) :=
   match parseArgv argv with
   | .outside => none
-  | .usage => some 2
-  | .ok a => some (exitStatus (runs (runCallOf a)))
+  | .usage => some (some 2, none)
+  | .exit0 => some (some 0, none)
+  | .ok a => some (exitStatus (runs (runCallOf a)), some (runCallOf a))
 
 /-- The same with a fault possible in every phase of `main`: `cfg` / `log` are what `config.init()`
     / `set_root_logger(log_level, log_path)` raise, `runs` what escapes the pipeline run for the
     call `main` makes. -/
-def cliProcessPhases (argv : List String) (cfg : Raised) (log : Option Nat → Option String → Raised)
+def cliProcessPhases (argv : List String) (cfg : Raised) (log : Option Int → Option String → Raised)
     (runs : RunCall → Raised) : Option Outcome :=
   match parseArgv argv with
   | .outside => none
-  | .usage => some (.returned ⟨some 2, "", ""⟩)
+  | .usage => some (.escaped (.systemExit (.int 2)))
+  | .exit0 => some (.escaped (.systemExit (.int 0)))
   | .ok a => some (mainPhases fun
       | .configInit => cfg
       | .setRootLogger => log a.log a.logpath
@@ -504,5 +855,186 @@ def initialContext (loads : String → Except Exc Val) (parser : Option Parser)
       | .ok (some (.dict d)) => (updateFrom ctx0 d).map .ok
       | .ok (some _) => none
   else some (.ok ctx0)
+
+/-! ## 5. Shortcuts
+
+`Pipeline.new_pipe_and_args`: when `config.shortcuts` has a (truthy) entry under the pipeline name
+the caller gave, every argument of the run is rewritten from it before `_get_parse_input` decides
+whether the parser runs. `config.shortcuts` is a plain dict loaded from the config files; a
+shortcut is a dict. Domain: string keys; `pipeline_name`, `success`, `failure`, `loader`, `py_dir`
+absent / null / a string; `parser_args` absent / null / a string (a `ConfigError`) / a list of
+strings; `skip_parse` absent / null / a bool; `args` absent / null / a dict with string keys;
+`groups` absent / null / a string / a list of strings. Anything else is `none` (outside). -/
+
+/-- The arguments of `Pipeline.new_pipe_and_args` (= those of `pipelinerunner.run`). -/
+structure ApiCall where
+  name        : String
+  contextArgs : Option (List String) := none
+  parseInput  : Option Bool := none
+  dictIn      : Option Ctx := none
+  loader      : Option String := none
+  groups      : Option (List String) := none
+  success     : Option String := none
+  failure     : Option String := none
+  pyDir       : Option String := none
+  deriving Repr, DecidableEq, Inhabited
+
+/-- `py_dir` of the new `Pipeline`: what the caller passed, or `Path(dir_str)` of the shortcut
+    (`pathlib`'s normalisation of the text is CPython's). -/
+inductive PyDir where
+  | caller (d : Option String)
+  | path (raw : String)
+  deriving Repr, DecidableEq, Inhabited
+
+/-- The new `Pipeline`'s attributes and the dict handed to `Context(…)`. -/
+structure Resolved where
+  name        : String
+  contextArgs : Option (List String)
+  parseInput  : Bool
+  dictIn      : Option Ctx
+  loader      : Option String
+  groups      : Option (List String)
+  success     : Option String
+  failure     : Option String
+  pyDir       : PyDir
+  deriving Repr, DecidableEq, Inhabited
+
+def configErrorNoName (shortcut : String) : Exc :=
+  ⟨"pypyr.errors.ConfigError", "shortcut '" ++ shortcut ++ "' has no pipeline_name set. You must set pipeline_name " ++
+    "for this shortcut in config so that pypyr knows which pipeline to run."⟩
+
+def configErrorParserArgs (shortcut : String) : Exc :=
+  ⟨"pypyr.errors.ConfigError", "shortcut '" ++ shortcut ++ "' parser_args should be a list, not a string."⟩
+
+/-- A list of strings. -/
+def strsOfVals : List Val → Option (List String)
+  | [] => some []
+  | .str s :: rest => (strsOfVals rest).map (s :: ·)
+  | _ :: _ => none
+
+/-- A dict with string keys as a context. -/
+def ctxOfDict : List (Val × Val) → Option Ctx
+  | [] => some []
+  | (.str k, v) :: rest => (ctxOfDict rest).map ((k, v) :: ·)
+  | _ :: _ => none
+
+/-- `shortcut.get(key, default)` for a value that must be null or a string. Outer `none`: outside. -/
+def getStrOr (sc : List (Val × Val)) (key : String) (default : Option String) : Option (Option String) :=
+  match dictGet? sc (.str key) with
+  | none => some default
+  | some .none => some none
+  | some (.str s) => some (some s)
+  | some _ => none
+
+/-- The case of no shortcut: the arguments as given, `parse_input` decided by `_get_parse_input`. -/
+def resolveDirect (c : ApiCall) : Resolved :=
+  { name := c.name, contextArgs := c.contextArgs,
+    parseInput := getParseInput c.parseInput c.contextArgs c.dictIn.isSome,
+    dictIn := c.dictIn, loader := c.loader, groups := c.groups, success := c.success, failure := c.failure,
+    pyDir := .caller c.pyDir }
+
+/-- `parser_args`: a non-empty list is put *before* the caller's arguments (always a new list); a
+    non-empty string is a `ConfigError`; absent / null / empty leaves the caller's arguments (`None`
+    or a list) as they are. -/
+def scContextArgs (shortcutName : String) (sc : List (Val × Val)) (callerArgs : Option (List String)) :
+    Option (Except Exc (Option (List String))) :=
+  match dictGet? sc (.str "parser_args") with
+  | none => some (.ok callerArgs)
+  | some .none => some (.ok callerArgs)
+  | some (.str s) => if s = "" then some (.ok callerArgs) else some (.error (configErrorParserArgs shortcutName))
+  | some (.list xs) =>
+    match strsOfVals xs with
+    | none => none
+    | some pa =>
+      if pa.isEmpty then some (.ok callerArgs)
+      else if argsTruthy callerArgs then some (.ok (some (pa ++ callerArgs.getD [])))
+      else some (.ok (some pa))
+  | some _ => none
+
+/-- `skip_parse`: `parse_input = None if skip_parse is None else not skip_parse` - the caller's
+    `parse_input` is dropped whenever a shortcut applies. -/
+def scParseIn (sc : List (Val × Val)) : Option (Option Bool) :=
+  match dictGet? sc (.str "skip_parse") with
+  | none => some none
+  | some .none => some none
+  | some (.bool b) => some (some (!b))
+  | some _ => none
+
+/-- `args`: a non-empty dict is copied and the caller's `dict_in` (if truthy) `update`d over it;
+    absent / null / empty leaves the caller's `dict_in` as it is. -/
+def scDictIn (sc : List (Val × Val)) (callerDict : Option Ctx) : Option (Option Ctx) :=
+  match dictGet? sc (.str "args") with
+  | none => some callerDict
+  | some .none => some callerDict
+  | some (.dict kvs) =>
+    match ctxOfDict kvs with
+    | none => none
+    | some scd =>
+      if scd.isEmpty then some callerDict
+      else match callerDict with
+        | none => some (some scd)
+        | some d => if d.isEmpty then some (some scd) else some (some (Ctx.update scd d))
+  | some _ => none
+
+/-- `groups`: `shortcut.get('groups', groups)`; a string means a single group; a key present with
+    null *replaces* the caller's groups by `None`. -/
+def scGroups (sc : List (Val × Val)) (callerGroups : Option (List String)) : Option (Option (List String)) :=
+  match dictGet? sc (.str "groups") with
+  | none => some callerGroups
+  | some .none => some none
+  | some (.str s) => some (some [s])
+  | some (.list xs) => (strsOfVals xs).map some
+  | some _ => none
+
+/-- `py_dir`: only a truthy value overrides (`Path(dir_str)`). -/
+def scPyDir (sc : List (Val × Val)) (callerDir : Option String) : Option PyDir :=
+  match getStrOr sc "py_dir" none with
+  | none => none
+  | some none => some (.caller callerDir)
+  | some (some s) => if s = "" then some (.caller callerDir) else some (.path s)
+
+/-- The body of `if shortcut:` in `new_pipe_and_args` followed by `_get_parse_input` and the
+    constructor call, statement by statement (an earlier `raise` wins over anything a later
+    statement would do). Outer `none`: outside the modelled domain. -/
+def resolveWith (shortcutName : String) (sc : List (Val × Val)) (c : ApiCall) : Option (Except Exc Resolved) :=
+  -- name = shortcut.get('pipeline_name'); if not name: raise ConfigError
+  match getStrOr sc "pipeline_name" none with
+  | none => none
+  | some none => some (.error (configErrorNoName shortcutName))
+  | some (some name) =>
+    if name = "" then some (.error (configErrorNoName shortcutName))
+    else match scContextArgs shortcutName sc c.contextArgs with
+      | none => none
+      | some (.error e) => some (.error e)
+      | some (.ok contextArgs) =>
+        match scParseIn sc, scDictIn sc c.dictIn, scGroups sc c.groups, getStrOr sc "success" c.success,
+              getStrOr sc "failure" c.failure, getStrOr sc "loader" c.loader, scPyDir sc c.pyDir with
+        | some parseIn, some dictIn, some groups, some success, some failure, some loader, some pyDir =>
+          some (.ok { name := name, contextArgs := contextArgs,
+                      parseInput := getParseInput parseIn contextArgs dictIn.isSome,
+                      dictIn := dictIn, loader := loader, groups := groups, success := success,
+                      failure := failure, pyDir := pyDir })
+        | _, _, _, _, _, _, _ => none
+
+/-- `Pipeline.new_pipe_and_args` for a given `config.shortcuts` (name ↦ shortcut, in the order of
+    the config dict; a later duplicate cannot exist in a dict). `if config.shortcuts:` and
+    `if shortcut:` are truthiness tests: an empty table, a missing entry, a null entry and an
+    *empty* shortcut dict all mean "no shortcut". Outer `none`: outside the modelled domain. -/
+def applyShortcut (shortcuts : Ctx) (c : ApiCall) : Option (Except Exc Resolved) :=
+  match shortcuts.get? c.name with
+  | none => some (.ok (resolveDirect c))
+  | some .none => some (.ok (resolveDirect c))
+  | some (.dict []) => some (.ok (resolveDirect c))
+  | some (.dict sc) => resolveWith c.name sc c
+  | some _ => none
+
+/-- The call `cli.main` makes, as `new_pipe_and_args` receives it (`pipelinerunner.run` passes
+    `dict_in=None`, `loader=None`). -/
+def RunCall.toApi (r : RunCall) : ApiCall :=
+  { name := r.pipelineName, contextArgs := some r.argsIn, parseInput := r.parseArgs, dictIn := none,
+    loader := none, groups := r.groups, success := r.successGroup, failure := r.failureGroup, pyDir := r.pyDir }
+
+/-- `Context(args) if args else Context()` in `pipelinerunner.run`. -/
+def contextOfDict (d : Option Ctx) : Ctx := d.getD []
 
 end Pypyr.Cli
